@@ -54,6 +54,29 @@ theorem push_inline_stays_inline (rf : Refuse) (st : List Bytes) (hp hp' : Heap)
     (hfit : inlLen raw + s.length ≤ 16) (h : pushStr rf st hp (.inl raw) s = .ok () hp' r') :
     hp' = hp ∧ ∃ raw', r' = .inl raw' := pushStr_inline_no_heap rf st hp hp' raw s r' () hfit h
 
+/-- an integer whose text has at most 16 characters is formatted straight into the inline bytes:
+no allocator request, no block touched, the handle is inline -/
+theorem int_inline_no_alloc (rf : Refuse) (hp hp' : Heap) (rows : List (Int × Int × Nat)) (wide : Bool) (n : Int)
+    (digits : Nat) (r : Handle) (hl : lookupRows rows n = some digits) (h16 : digits ≤ 16)
+    (h : intoReprCore rf hp rows wide n = some (some r, hp')) : hp' = hp ∧ ∃ raw, r = .inl raw := by
+  unfold intoReprCore at h
+  rw [hl] at h
+  simp only [withCapacity_small rf hp digits h16] at h
+  split at h
+  · cases h
+  · cases hw : writeThenSetLen hp (.inl inlEmpty) (digits - (writer wide (decide (n < 0)) n.natAbs).length)
+        (writer wide (decide (n < 0)) n.natAbs) digits with
+    | ok v hp2 r2 =>
+      rw [hw] at h
+      simp only [Option.some.injEq, Prod.mk.injEq] at h
+      obtain ⟨h1, h2⟩ := h
+      subst h1; subst h2
+      exact writeThenSetLen_inl _ _ _ _ _ _ _ hw
+    | err hp2 r2 => rw [hw] at h; cases h
+    | pidx hp2 r2 => rw [hw] at h; cases h
+    | pcb hp2 r2 => rw [hw] at h; cases h
+    | ub u => rw [hw] at h; cases h
+
 -- non-vacuity
 example : fromStr (fun _ _ => false) {} [0x61, 0x62] = (some (.inl (inlNew [0x61, 0x62])), {}) := by decide
 
